@@ -984,12 +984,29 @@ def _array_alias(tree, log):
             break
 
 
+# ------------------------------------------------------------------------------------------------ 2g. constant on the left
+class _ConstRight(ast.NodeTransformer):
+    """`0 == x`, `None != x`, `'default' == v`  ->  `x == 0` ...: with a literal on the left Python asks the literal's type first,
+    which answers NotImplemented for every foreign type and then asks x -- the comparison is the one written with x on the left"""
+    def __init__(self, log):
+        self.log = log
+
+    def visit_Compare(self, n):
+        self.generic_visit(n)
+        if len(n.ops) == 1 and isinstance(n.ops[0], (ast.Eq, ast.NotEq)) and isinstance(n.left, ast.Constant) and \
+                not isinstance(n.comparators[0], ast.Constant):
+            n.left, n.comparators = n.comparators[0], [n.left]
+            self.log.append(("-", "constant moved to the right of == / !="))
+        return n
+
+
 def normalise(tree, modname, inventory):
     log = []
     inl = _Inliner(tree, modname, inventory, log)
     inl.run()
     tree._helpers = inl.found
     _OperatorCalls(tree, log).visit(tree)
+    _ConstRight(log).visit(tree)
     _Enum(log).visit(tree)
     _Zip(log).visit(tree)
     _Aug(log).visit(tree)
